@@ -247,8 +247,27 @@ def o56(ctx):
                 what="flip_handedness without dimensions")
 
 
+def o57(ctx):
+    """the observer of the orientations: get_rotations() is the zxz rotation of the angles as they stand in the table now"""
+    q = "cryomotl.Motl.get_rotations"
+    m, fn = ctx.prog.func(q)
+    ctx.touched(q, "cryomotl.Motl.get_angles")
+    for tomo in (None, P("tomo_number")):
+        it = Interp(ctx.prog, assume=assume_map({"angles.shape[0] == 0": False, "tomo_number is None": tomo is None}))
+        me = motl_obj(ctx.prog)
+        r = it.run(q, [] if tomo is None else [tomo], {}, self_obj=me)
+        if not isinstance(r.ret, Rot):
+            raise Unsupported(f"get_rotations does not return a rotation object ({type(r.ret).__name__})", fn)
+        v = tm.rot_equivalent(no_sel(r.ret.term), particle_R(), samplers=ANGLES, seed_tag=q + str(tomo is None))
+        ctx.count(1, {"tomo_number": tomo is not None, "rotation": tm.show(r.ret.term)[:100], "equal": bool(v)})
+        if not v:
+            ctx.finding(q, "returned rotations", "get_rotations must return the zxz rotation of the particle's (phi, theta, psi) as stored in the "
+                        "table at the time of the call", fn, m, witness=v.witness)
+
+
 def _obligations():
     return [
+        Obligation("O5.7", "get_rotations observes the current table: zxz rotation of (phi, theta, psi)", o57, floor=2),
         Obligation("O5.1", "get_coordinates = (x,y,z) + (shift_x,shift_y,shift_z) in both branches", o51, floor=9),
         Obligation("O5.2", "update_coordinates: x' = round-half-up(x+shift), shift' = residual, x'+shift' invariant", o52, floor=9),
         Obligation("O5.3", "scale_coordinates multiplies all six position columns by the factor", o53, floor=6),
